@@ -90,3 +90,39 @@ Record lcase := { lc_text : text; lc_level : N; lc_alpha : list N; lc_alnum : li
 Definition check_lex (c : lcase) : bool :=
   leaves_eqb (lua_tokenize (level_features (lc_level c)) (fun ch => mem ch (lc_alpha c)) (fun ch => mem ch (lc_alnum c)) (lc_text c))
              (lc_tokens c).
+
+(** *** the doc parser's token pump: replay of the recorded primitives over the recorded lexer answers *)
+From EV Require Import C01.DocPump.
+
+Definition dop_eqb (a b : dop) : bool :=
+  match a, b with
+  | DMark k, DMark k' => k =? k'
+  | DSetKind p k, DSetKind p' k' => Nat.eqb p p' && (k =? k')
+  | DComplete p, DComplete p' => Nat.eqb p p'
+  | DUndo p, DUndo p' => Nat.eqb p p'
+  | DPrecede s k, DPrecede s' k' => Nat.eqb s s' && (k =? k')
+  | DRawEnd, DRawEnd => true
+  | DEat k s l, DEat k' s' l' => (k =? k') && (s =? s') && (l =? l')
+  | _, _ => false
+  end.
+
+Fixpoint dops_eqb (a b : list dop) : bool :=
+  match a, b with
+  | [], [] => true
+  | x :: r, y :: r' => dop_eqb x y && dops_eqb r r'
+  | _, _ => false
+  end.
+
+(** the comment group handed to the doc parser, the results of the doc lexer, the primitives performed, and what the
+    real doc parser did to the event list (marker operations and eaten tokens, in order) *)
+Record dcase := { dc_toks : list leaf; dc_answers : list (tkind * N); dc_ops : list pop; dc_out : list dop }.
+
+(** bits: 1 the model pump reproduces the real output; 2 lexer answers respected the Reader discipline;
+    4 client discipline respected; 8 the run ended with current = TkEof; 16 the group's tokens are non-empty *)
+Definition doc_report (c : dcase) : N :=
+  match doc_run (dc_toks c) (dc_answers c) (dc_ops c) with
+  | Some st =>
+      (if dops_eqb (d_out st) (dc_out c) then 1 else 0) + (if d_lex_ok st then 2 else 0) + (if d_disc st then 4 else 0) +
+      (if d_cur st =? TK_TkEof then 8 else 0) + (if forallb (fun t => 1 <=? snd (snd t)) (dc_toks c) then 16 else 0)
+  | None => 0
+  end.
